@@ -5,6 +5,7 @@ import (
 	"fmt"
 	"strings"
 	"sync"
+	"sync/atomic"
 	"testing"
 	"time"
 
@@ -39,6 +40,10 @@ func downLong(name string, qos int) []scn.Op {
 }
 
 var templates = map[string]scn.Program{
+	// Close with context.Background(): only the close timeout bounds it
+	"upstream-close-background": {{{Kind: "open-up", Obj: "u", QoS: 1}, {Kind: "write", Obj: "u", N: 2}, {Kind: "flush", Obj: "u"}, {Kind: "write", Obj: "u"}, {Kind: "close-up", Obj: "u", BG: true}}},
+	"conn-close-after-traffic": {{{Kind: "open-up", Obj: "u", QoS: 1}, {Kind: "write", Obj: "u"}, {Kind: "flush", Obj: "u"}, {Kind: "open-down", Obj: "d", QoS: 1}, {Kind: "read-data", Obj: "d"},
+		{Kind: "meta"}, {Kind: "write", Obj: "u"}, {Kind: "conn-close"}}},
 	"upstream-long-lived":          {upLong("u", 1)},
 	"up+down-long-lived":           {upLong("u", 0), downLong("d", 1)},
 	"upstream-reliable":            {up("u", 1)},
@@ -55,11 +60,11 @@ var templates = map[string]scn.Program{
 
 var templateNames = func() []string {
 	return []string{"upstream-reliable", "upstream-unreliable", "downstream", "metadata", "calls", "conn-close-with-open-streams", "up+down", "up+meta+call", "two-ups", "down+down",
-		"upstream-long-lived", "up+down-long-lived"}
+		"upstream-long-lived", "up+down-long-lived", "upstream-close-background", "conn-close-after-traffic"}
 }()
 
 var behaviours = []string{"answer", "delay", "drop", "sever-before", "sever-after", "mis-reqid", "mis-upalias", "mis-downalias", "mis-source", "mis-callid", "mis-reply",
-	"replace-reqid", "replace-upalias", "replace-source", "replace-callid", "withhold-acks"}
+	"replace-reqid", "replace-upalias", "replace-source", "replace-callid", "withhold-acks", "sever-outage"}
 
 // Fault is one behaviour applied at one inbound message position.
 type Fault struct {
@@ -113,6 +118,7 @@ type outcome struct {
 	startDur time.Duration
 	fired    int
 	npos     int
+	outage   bool
 	links    int // transports dialled during the case
 	severs   int // sever behaviours that fired
 }
@@ -125,6 +131,9 @@ func execute(c Case, faults []Fault) *outcome {
 	o := &outcome{}
 	var mu sync.Mutex
 	withhold := false
+	// sever-outage: the link is cut and every redial is refused until the program has finished
+	var refuse atomic.Bool
+	w.FailDial = func(int) bool { return refuse.Load() }
 	b.OnChunk = nil
 	b.Hook = func(inc *sim.Inc, e *sim.Entry) sim.Verdict {
 		if inc.Index != 0 || e.Pos == 0 {
@@ -144,6 +153,18 @@ func execute(c Case, faults []Fault) *outcome {
 		for _, f := range faults {
 			if f.Pos != e.Pos {
 				continue
+			}
+			// Close(context.Background()): the library bounds the wait for acknowledgements by the close timeout, but the wait for
+			// the close RESPONSE only by the caller's context (its own tests rely on that with a 1 ms close timeout). A broker that
+			// never answers the close request therefore blocks such a call for good, by the caller's choice; the property names "the
+			// bound that governs" a call, and there is none. So in the background-close template the close request itself is always
+			// answered (an earlier version flagged these cases; a repair bounding the request by the close timeout broke the
+			// repository's TestUpstream_Resume_Unreliable and was dropped).
+			if _, isClose := e.Msg.(*message.UpstreamCloseRequest); isClose && c.Template == "upstream-close-background" {
+				switch f.Behaviour {
+				case "drop", "replace-reqid", "replace-upalias", "replace-source", "replace-callid":
+					return sim.Default
+				}
 			}
 			mu.Lock()
 			o.fired++
@@ -172,6 +193,13 @@ func execute(c Case, faults []Fault) *outcome {
 				o.severs++
 				mu.Unlock()
 				return sim.SeverAfter
+			case "sever-outage":
+				mu.Lock()
+				o.severs++
+				o.outage = true
+				mu.Unlock()
+				refuse.Store(true)
+				return sim.SeverBefore
 			case "withhold-acks":
 				mu.Lock()
 				withhold = true
@@ -207,6 +235,7 @@ func execute(c Case, faults []Fault) *outcome {
 		return o
 	}
 	env.Run(templates[c.Template])
+	refuse.Store(false)
 	o.recs = env.Records()
 	// later calls still work (unless the program closed the connection itself)
 	closedByProgram := false
@@ -325,7 +354,8 @@ func run(c Case, k *ev.Case) *ev.Failure {
 	// an outage nobody planned (the keepalive gave up on a starved process, or the library dropped a healthy connection - C15's and
 	// C05's business): the probe no longer talks to a cooperative broker over a healthy link, so its errors prove nothing. Blocked
 	// calls and leaked locks are still judged.
-	disturbed := o.links > 1+o.severs
+	// after an outage with refused redials the library is in its redial back-off when the probe starts: same reasoning
+	disturbed := o.links > 1+o.severs || o.outage
 	if disturbed {
 		k.Label("unplanned-reconnect")
 		ev.TimingInconclusive()
@@ -422,6 +452,11 @@ func TestRegress(t *testing.T) {
 	// C08-metadata-unsubscribed-source: leaked read lock
 	sub.One(t, Case{Template: "downstream", Faults: []Fault{{Pos: 2, Behaviour: "mis-source"}}, Cfg: cfg})
 	sub.One(t, Case{Template: "down+down", Faults: []Fault{{Pos: 3, Behaviour: "replace-source"}}, Cfg: cfg})
+	// seeded change C08/m1 (close timeout not armed during the wait for acks): Close(context.Background()) with withheld acks
+	sub.One(t, Case{Template: "upstream-close-background", Faults: []Fault{{Pos: 3, Behaviour: "withhold-acks"}}, Cfg: cfg})
+	// C08-call-waits-for-conn-mutex-during-outage: link cut + refused redials while calls are in progress
+	sub.One(t, Case{Template: "up+meta+call", Faults: []Fault{{Pos: 2, Behaviour: "sever-outage"}}, Cfg: cfg})
+	sub.One(t, Case{Template: "conn-close-after-traffic", Faults: []Fault{{Pos: 4, Behaviour: "sever-outage"}}, Cfg: cfg})
 	// C08-late-ack-after-ack-timeout: the ack of the first chunk arrives after the ack timeout while the stream lives on
 	cfgAck := scn.Config{PingMs: 30, PingTimeoutMs: 1500, CtxMs: 200, CloseTimeoutMs: 100, AckTimeoutMs: 30}
 	sub.One(t, Case{Template: "upstream-long-lived", Faults: []Fault{{Pos: 3, Behaviour: "delay", DelayMs: 60}}, Cfg: cfgAck})
